@@ -1,9 +1,22 @@
 """C03 - rewriting touches only the arguments of snapshot() calls."""
+import random
+
 from .core import core_check
+from ..render_core import LAYOUTS
+
+
+def _layout(run):
+    rng = random.Random(run["h"])
+    k = rng.choice([0, 1, 1, 2, 2, 3])
+    attrs = sorted(rng.sample(LAYOUTS, k))
+    if "crlf" in attrs and "cr" in attrs:
+        attrs.remove("cr")
+    run["layout"] = attrs
+    run["id"] += "@" + "+".join(attrs)
 
 
 def run():
-    chk = core_check("C03", quick_keep=12, thorough_keep=4)
+    chk = core_check("C03", quick_keep=12, thorough_keep=4, annotate=_layout)
     if isinstance(chk, int):
         return chk
     return chk.finish(
